@@ -91,3 +91,83 @@ package resharing
 //@   loop 2 invariant forall id :: (maphas(idsMap, id) ==> rsAwaited(round, id))
 //@   loop 2 invariant forall m in 0..len(ids) :: maphas(idsMap, ids[m])
 //@   loop 2 invariant forall id :: (visited(idsMap, id) ==> (exists m in 0..len(ids) :: ids[m] == id))
+
+// ----- the round Start functions -----
+//@ define ecRsWF(round) = rsWF(round.ReSharingParameters) && issecp(round.ReSharingParameters.Parameters.ec) && round.temp != nil && round.input != nil && round.save != nil && round.out != nil && round.end != nil && len(round.oldOK) == rsOldN(round) && len(round.newOK) == rsNewN(round) && len(round.temp.dgRound1Messages) == rsOldN(round) && len(round.temp.dgRound2Message1s) == rsNewN(round) && len(round.temp.dgRound2Message2s) == rsNewN(round) && len(round.temp.dgRound3Message1s) == rsOldN(round) && len(round.temp.dgRound3Message2s) == rsOldN(round) && len(round.temp.dgRound4Message1s) == rsNewN(round) && len(round.temp.dgRound4Message2s) == rsNewN(round) && rsOldN(round) <= 256 && rsNewN(round) <= 256 && 0 <= round.ReSharingParameters.newThreshold && round.ReSharingParameters.newThreshold < 256 && round.ReSharingParameters.newPartyCount == rsNewN(round)
+//@ define ecRsIdx(round) = 0 <= round.ReSharingParameters.Parameters.partyID.Index && (rsOld(round.ReSharingParameters) ==> round.ReSharingParameters.Parameters.partyID.Index < rsOldN(round)) && (rsNew(round.ReSharingParameters) ==> round.ReSharingParameters.Parameters.partyID.Index < rsNewN(round))
+//@ define ecShareIntact(round) = (old(round.input.Xi) != nil ==> val(old(round.input.Xi)) == old(val(round.input.Xi)))
+// old key material as handed to the old committee member (BuildLocalSaveDataSubset over the old committee)
+//@ define ecOldKey(round) = (round.input.Xi != nil && val(round.input.Xi) >= 0 && val(round.input.Xi) % secpN != 0 && len(round.input.Ks) == rsOldN(round) && len(round.input.BigXj) == rsOldN(round) && len(round.input.NTildej) <= 256 && len(round.input.H1j) <= 256 && len(round.input.H2j) <= 256 && (forall k in 0..len(round.input.Ks) :: (round.input.Ks[k] != nil && val(round.input.Ks[k]) >= 0 && val(round.input.Ks[k]) % secpN != 0)) && (forall a, b in 0..len(round.input.Ks) :: (a != b ==> (val(round.input.Ks[a]) != val(round.input.Ks[b]) && gcd(val(round.input.Ks[a]) - val(round.input.Ks[b]), secpN) == 1))) && (forall k in 0..len(round.input.BigXj) :: (validPoint(round.input.BigXj[k]) && allocated(round.input.BigXj[k]) && round.input.BigXj[k].curve == round.ReSharingParameters.Parameters.ec)) && (forall k in 0..len(round.input.NTildej) :: round.input.NTildej[k] != nil) && (forall k in 0..len(round.input.H1j) :: round.input.H1j[k] != nil) && (forall k in 0..len(round.input.H2j) :: round.input.H2j[k] != nil) && round.input.ECDSAPub != nil && wfPoint(round.input.ECDSAPub))
+
+//@ func (*DGRound1Message).UnmarshalVCommitment
+//@   props C06 C16
+//@   requires m != nil
+//@   ensures result != nil && fresh(result) && val(result) >= 0
+//@ func (*DGRound1Message).UnmarshalSSID
+//@   props C06 C12
+//@   requires m != nil
+//@   ensures result == m.Ssid
+//@ func (*DGRound3Message2).UnmarshalVDeCommitment
+//@   props C06 C16
+//@   requires m != nil
+//@   ensures fresh(result) && len(result) == len(m.VDecommitment) && (forall k in 0..len(result) :: (result[k] != nil && val(result[k]) >= 0))
+//@ func (*DGRound2Message1).UnmarshalPaillierPK
+//@   props C06 C14
+//@   requires m != nil
+//@   ensures result != nil && fresh(result) && result.N != nil && fresh(result.N) && val(result.N) >= 0
+//@ func (*DGRound2Message1).UnmarshalNTilde
+//@   props C06
+//@   requires m != nil
+//@   ensures result != nil && fresh(result) && val(result) >= 0
+//@ func (*DGRound2Message1).UnmarshalH1
+//@   props C06
+//@   requires m != nil
+//@   ensures result != nil && fresh(result) && val(result) >= 0
+//@ func (*DGRound2Message1).UnmarshalH2
+//@   props C06
+//@   requires m != nil
+//@   ensures result != nil && fresh(result) && val(result) >= 0
+//@ func (*DGRound4Message1).UnmarshalFacProof
+//@   props C06 C10
+//@   requires m != nil
+//@   ensures result1 != nil ==> result0 == nil
+//@   ensures result1 == nil ==> (result0 != nil && fresh(result0) && wfFac(result0) && nnFac(result0))
+
+//@ func (*base).getSSID
+//@   props C06 C12
+//@   requires round != nil && rsWF(round.ReSharingParameters) && okCurve(round.ReSharingParameters.Parameters.ec) && round.input != nil && round.temp != nil && round.temp.ssidNonce != nil
+//@   requires [sizes] rsOldN(round) <= 256 && len(round.input.BigXj) <= 256 && len(round.input.NTildej) <= 256 && len(round.input.H1j) <= 256 && len(round.input.H2j) <= 256
+//@   requires [old-key-lists-wellformed] (forall k in 0..len(round.input.BigXj) :: (round.input.BigXj[k] != nil ==> (allocated(round.input.BigXj[k]) && wfPoint(round.input.BigXj[k])))) && (forall k in 0..len(round.input.NTildej) :: round.input.NTildej[k] != nil) && (forall k in 0..len(round.input.H1j) :: round.input.H1j[k] != nil) && (forall k in 0..len(round.input.H2j) :: round.input.H2j[k] != nil)
+//@   ensures result1 != nil ==> isnil(result0)
+//@   ensures result1 == nil ==> (!isnil(result0) && fresh(result0) && len(result0) <= 32)
+
+//@ func (*round1).Start
+//@   props C06 C05 C04
+//@   requires round != nil && round.base != nil && ecRsWF(round) && ecRsIdx(round)
+//@   requires [old-key-data] rsOld(round.ReSharingParameters) ==> ecOldKey(round)
+//@   modifies *
+//@   ensures [C04.old-share-intact-before-the-final-round] ecShareIntact(round)
+
+//@ func (*round3).Start
+//@   props C06 C05 C04
+//@   requires round != nil && round.round2 != nil && round.round2.round1 != nil && round.round2.round1.base != nil && ecRsWF(round) && ecRsIdx(round)
+//@   requires [own-dealing-from-round-1] rsOld(round.ReSharingParameters) ==> (len(round.temp.NewShares) == rsNewN(round) && (forall k in 0..len(round.temp.NewShares) :: (round.temp.NewShares[k] != nil && round.temp.NewShares[k].ID != nil && round.temp.NewShares[k].Share != nil)) && (forall k in 0..len(round.temp.VD) :: round.temp.VD[k] != nil))
+//@   modifies *
+//@   ensures [C04.old-share-intact-before-the-final-round] ecShareIntact(round)
+//@   loop 0 invariant round.started
+
+//@ define rs2m1slot(m) = (!isnil(m) && istype(msgcontent(m), "*ecdsa/resharing.DGRound2Message1") && cast(msgcontent(m), "*ecdsa/resharing.DGRound2Message1") != nil)
+//@ define rs4m1slot(m) = (!isnil(m) && istype(msgcontent(m), "*ecdsa/resharing.DGRound4Message1") && cast(msgcontent(m), "*ecdsa/resharing.DGRound4Message1") != nil)
+
+//@ func (*round5).Start
+//@   props C06 C05 C04
+//@   requires round != nil && round.round4 != nil && round.round4.round3 != nil && round.round4.round3.round2 != nil && round.round4.round3.round2.round1 != nil && round.round4.round3.round2.round1.base != nil && ecRsWF(round) && ecRsIdx(round)
+//@   requires [old-member-holds-a-share] (rsOld(round.ReSharingParameters) && !rsNew(round.ReSharingParameters)) ==> round.input.Xi != nil
+//@   requires [new-member-state] rsNew(round.ReSharingParameters) ==> (len(round.temp.ssid) <= 4096 && len(round.save.PaillierPKs) == rsNewN(round) && (forall j in 0..rsNewN(round) :: (j != round.ReSharingParameters.Parameters.partyID.Index ==> (rs2m1slot(round.temp.dgRound2Message1s[j]) && rs4m1slot(round.temp.dgRound4Message1s[j])))))
+//@   modifies *
+//@   ensures [C04.a-continuing-member-keeps-its-old-share] (rsNew(round.ReSharingParameters) && old(round.input.Xi) != nil && old(round.input.Xi) != old(round.temp.newXi)) ==> val(old(round.input.Xi)) == old(val(round.input.Xi))
+//@   ensures [C04.key-data-emitted-exactly-once-and-only-on-success] (result == nil ==> sent(old(round.end)) == old(sent(round.end)) + 1) && (result != nil ==> sent(old(round.end)) == old(sent(round.end)))
+//@   loop 0 invariant rsNew(round.ReSharingParameters) && round.started && sent(round.end) == old(sent(round.end)) && len(round.save.PaillierPKs) == rsNewN(round) && len(ContextI) <= 4104
+//@   loop 0 invariant forall k in 0..$iter :: (k != i ==> (round.save.PaillierPKs[k] != nil && round.save.PaillierPKs[k].N != nil))
+//@   loop 1 invariant rsNew(round.ReSharingParameters) && round.started && sent(round.end) == old(sent(round.end)) && len(round.save.PaillierPKs) == rsNewN(round) && len(ContextI) <= 4104
+//@   loop 1 invariant forall k in 0..rsNewN(round) :: (k != i ==> (round.save.PaillierPKs[k] != nil && round.save.PaillierPKs[k].N != nil))
